@@ -18,7 +18,7 @@ SEARCH_AOBJ = $(patsubst engines/%.cpp,$(B)/asan/%.o,$(SEARCH_SRC))
 
 .PHONY: all prod asan clean
 all: prod
-prod: $(B)/search $(B)/segmentation $(B)/dynamic
+prod: $(B)/search $(B)/segmentation $(B)/dynamic $(B)/multidim
 
 $(STAMP):
 	@mkdir -p $(B) && touch $@
@@ -41,6 +41,12 @@ $(B)/dynamic: $(B)/prod/dynamic.o
 	$(CXX) $(PROD) $^ -o $@
 
 $(B)/dynamic_asan: $(B)/asan/dynamic.o
+	$(CXX) $(ASAN) $^ -o $@
+
+$(B)/multidim: $(B)/prod/multidim.o
+	$(CXX) $(PROD) $^ -o $@
+
+$(B)/multidim_asan: $(B)/asan/multidim.o
 	$(CXX) $(ASAN) $^ -o $@
 
 $(B)/search_asan: $(SEARCH_AOBJ)
